@@ -315,6 +315,28 @@ def oracle(case):
         same(call(obs * k, ens0 * k)[0], f"scaling by {k}", factor=k,
              t2=1e-9 * mag * k, keys=KEYS if exact["scale"] else cont)
 
+    # whole-number data blown up by a power of two and moved to a level just
+    # below the largest float64 (both exact: every difference between two
+    # values is the old one times 2^975, far from overflow, while plain sums
+    # of the values themselves are not representable)
+    if np.array_equal(vobs, np.round(vobs)) and \
+            np.array_equal(vens, np.round(vens)) and mag <= 1024:
+        K = 2.0 ** 975
+        for lev in (2.0 ** 1022, -2.0 ** 1022):
+            K_ = K
+            o2, e2 = obs * K_ + lev, ens0 * K_ + lev
+            if not (np.array_equal((vobs * K_ + lev - lev) / K_, vobs)
+                    and np.isfinite(e2).all()):
+                continue
+            dh = call(o2, e2)[0]
+            for k_ in KEYS:
+                if not close(dh[k_] / K_, d[k_], tol):
+                    raise Violation(
+                        f"data times 2^{int(np.log2(K_))} plus {lev!r} "
+                        f"(all values finite): {k_} = {dh[k_]!r}, expected "
+                        f"2^{int(np.log2(K_))} x {d[k_]!r}")
+        labels_extra.append("level-near-the-largest-float")
+
     # classification
     ties_mm = any(len(set(r)) < m for r in vens.tolist())
     ties_mo = bool(np.any(vens == vobs[:, None]))
